@@ -285,7 +285,10 @@ private:
       hash = harris_michael_hash_map::hash{}(value.first);
     }
     [[nodiscard]] hash_t get_hash() const { return hash; }
-    [[nodiscard]] bool greater_or_equal(hash_t h, const Key& key) const { return hash >= h && value.first >= key; }
+    [[nodiscard]] bool greater_or_equal(hash_t h, const Key& key) const {
+      // lexicographic order on (hash, key), so that a bucket list is totally ordered
+      return hash != h ? hash > h : value.first >= key;
+    }
   };
 
   using data_t = std::conditional_t<memoize_hash, data_with_hash, data_without_hash>;
